@@ -94,9 +94,15 @@ def friendly_tiers(P, k):
     t3 = bases + small + fwd + [P.sfi == 0, UGE(P.pc, 32)]
     t4 = bases + [P.sfi == 0, UGE(P.pc, 32)]
     t5 = [P.sfi == 0]
-    # the same placement at any call depth (replayed behind `depth` local calls): needed when the model exists only at depth > 0
-    t1d = bases + small + rg + fwd + [UGE(P.pc, 48), ULT(P.pc, 200), ULE(P.prog_len, 8 * 400)]
-    return [t1, t2, t1d, t3, t4, t5]
+    return [t1, t2, t3, t4, t5]
+
+
+def depth_tiers(P, k):
+    """for a counterexample that exists only at call depth > 0 (no friendly_tiers model): replay-friendly placement behind `depth` local calls"""
+    bases = [P.mem_base == 0x100000000000, P.mbuff_base == 0x200000000000, P.stack_base == 0x300000000000, P.prog_base == 0x400000000000]
+    small = [ULE(P.mem_len, 64), ULE(P.mbuff_len, 64), UGE(P.mem_len, 16), UGE(P.mbuff_len, 16)]
+    fwd = [P.off >= 0] if k in ('ja', 'jcond') else []
+    return [bases + small + fwd + [UGT(P.sfi, 0), UGE(P.pc, 48), ULT(P.pc, 200), ULE(P.prog_len, 8 * 400)]]
 
 
 def short(msg):
